@@ -29,6 +29,21 @@ CLAIMED = {
                 "legality could not be pinned down are not generated (DESIGN.md section 8).",
         "technique": "deterministic simulation: differential exchange with an independent codec over a simulated disk",
     },
+    "C17": {
+        "category": "exploration",
+        "text": "Sessions that share one stored file and its handles are interleaved by a seeded discrete-event scheduler: loaders (gds_info, "
+                "gds_units, gds_timestamp, read_gds plain / with a tag filter / with a target unit), raw-cell holders (read_rawcells keeps the "
+                "source handle open across turns; subsets closed under dependencies are copied into other files by write_gds or by a multi-turn "
+                "GdsWriter session mixed with fresh cells; the rest is cleared in a seeded order), in-place timestamp rewrites (also torn by a "
+                "crash at a chosen device write), clock moves and benign environment faults.  Oracles: every shortcut equals the full load "
+                "(and the independent decoder's census); copied raw cells load like their source at the copy instant; after EVERY device write "
+                "of a rewrite the changed bytes lie inside BGNLIB/BGNSTR timestamp fields; exactly one source handle per live raw-cell set, "
+                "closed exactly when its last cell is drained or cleared.",
+        "design_ref": "DESIGN.md 5.2",
+        "note": "Trusted: the peer decoder's byte ranges; canonicaliser. The schedule dimension is narrow (steps are whole API calls); most "
+                "of the deciding power is in the differential oracles and the write-granular containment check.",
+        "technique": "deterministic simulation: seeded interleaving of reader/raw-cell/rewriter sessions over a simulated file system, differential oracles",
+    },
     "C18": {
         "category": "fault_enumeration",
         "text": "Every reader named by the property is run, under ASan/bounds/null/bool/enum sanitizers with a seeded dirty, always-moving heap, on valid "
@@ -63,7 +78,7 @@ NA = {
     "C20": "Map/Set/TagMap/StyleMap, property lists and sort are sequential data structures never shared between threads; stateful PBT, not simulation.",
 }
 PENDING = {k: "simulation check under construction in this round (see DESIGN.md section 5); not claimed until it exists"
-           for k in ("C02", "C04", "C17")}
+           for k in ("C02", "C04")}
 
 def main():
     checks = []
@@ -91,7 +106,7 @@ def main():
             "guard": "GDSTK_VERIF_SIM",
             "enable": "every check compiles /repo/src/*.cpp itself with -DGDSTK_VERIF_SIM -DGDSTK_CUSTOM_ALLOCATOR (see build.py); "
                       "all other seams are link-time (-Wl,--wrap) and need no source change",
-            "baseline_off_cmd": "cmake -G Ninja -S /repo -B /repo/_build -DCMAKE_BUILD_TYPE=RelWithDebInfo && cmake --build /repo/_build -j16 && "
+            "baseline_off_cmd": "cmake -G Ninja -S /repo -B /repo/_build -DCMAKE_BUILD_TYPE=RelWithDebInfo && cmake --build /repo/_build -j16 --target all examples && "
                                 "ctest --test-dir /repo/_build -j8 --timeout 900",
             "source_commits": hooks_commits,
             "add_only": True,
